@@ -769,5 +769,9 @@ pub mod verif_access {
         pub fn verif_has_debugger(&self) -> bool {
             self.debugger.is_some()
         }
+        /// Breakpoints of the attached debugger, if it is still attached.
+        pub fn verif_breakpoints(&self) -> Option<Vec<(u16, bool)>> {
+            self.debugger.as_ref().map(|d| d.verif_breakpoints())
+        }
     }
 }
